@@ -10,7 +10,7 @@ def main():
     if args and args[0] == "--props":
         props_override = args[1].split(",")
         args = args[2:]
-    ids = args or sorted(os.listdir(os.path.join(ROOT, "seeded")))
+    ids = args or sorted(x for x in os.listdir(os.path.join(ROOT, "seeded")) if os.path.isdir(os.path.join(ROOT, "seeded", x)))
     man = json.load(open(os.path.join(ROOT, "MANIFEST.json")))
     claimed = {c["property_id"] for c in man["checks"]}
     for sid in ids:
